@@ -649,7 +649,8 @@ func (c *ChannelWriter) createPartition(ctx context.Context, apiEvent *api.Repli
 			zap.String("collection", apiEvent.CollectionInfo.Schema.GetName()), zap.String("partition", util.Base64ProtoObj(apiEvent.PartitionInfo)))
 		return nil
 	}
-	dbName, colName := c.mapDBAndCollectionName(apiEvent.ReplicateParam.Database, apiEvent.CollectionInfo.Schema.GetName())
+	sourceDatabase := apiEvent.ReplicateParam.Database
+	dbName, colName := c.mapDBAndCollectionName(sourceDatabase, apiEvent.CollectionInfo.Schema.GetName())
 	apiEvent.ReplicateParam.Database = dbName
 	createParam := &api.CreatePartitionParam{
 		MsgBaseParam:   api.MsgBaseParam{Base: &commonpb.MsgBase{ReplicateInfo: apiEvent.ReplicateInfo}},
@@ -660,7 +661,8 @@ func (c *ChannelWriter) createPartition(ctx context.Context, apiEvent *api.Repli
 	err := c.dataHandler.CreatePartition(ctx, createParam)
 	if err != nil {
 		log.Warn("fail to create partition", zap.Any("event", apiEvent), zap.Error(err))
-		skip, _ := c.WaitObjReadyForAPIEvent(ctx, apiEvent, true, true, false)
+		// the readiness tables are keyed by source names: ReplicateParam.Database holds the mapped name by now
+		skip, _ := c.WaitObjReady(ctx, sourceDatabase, apiEvent.CollectionInfo.Schema.GetName(), "", apiEvent.ReplicateInfo.MsgTimestamp)
 		if !skip {
 			return err
 		}
@@ -692,7 +694,8 @@ func (c *ChannelWriter) dropPartition(ctx context.Context, apiEvent *api.Replica
 	err := c.dataHandler.DropPartition(ctx, dropParam)
 	if err != nil {
 		log.Warn("fail to drop partition", zap.Any("event", apiEvent), zap.Error(err))
-		skip, _ := c.WaitObjReadyForAPIEvent(ctx, apiEvent, true, true, false)
+		// the readiness tables are keyed by source names: ReplicateParam.Database holds the mapped name by now
+		skip, _ := c.WaitObjReady(ctx, databaseName, collectionName, "", apiEvent.ReplicateInfo.MsgTimestamp)
 		if !skip {
 			return err
 		}
